@@ -77,7 +77,8 @@ CHECKS['C03'] = dict(
          'version, PIFF, events x schedules, bugs} plus the drm x piff x events x bugs triples, x {vod, live} x '
          '{number, time} x every segment the manifest enumerates for fixture and synthetic streams (8/16-byte IV, '
          'with/without sub-samples, explicit base_data_offset, no tfdt, styp/sidx). Each response is strictly '
-         'nested, payload-identical to a stored segment, trun/saio offsets address payload/senc, counts agree.',
+         'nested, payload-identical to a stored segment, trun/saio offsets address payload/senc, counts agree.'
+         ' Histories: every ordered pair (a, b) of a request alphabet is run in a process forked for that pair from one that has served nothing; the responses to b are compared with b run alone (mc/history.py).',
     note='Stored view comes from mc/bmff.py scan of the stored bytes, never from the service index.')
 
 CHECKS['C10'] = dict(
@@ -89,7 +90,8 @@ CHECKS['C10'] = dict(
          'synthetic) x {live, vod} x {single-period, multi-period init route} (thorough: x PlayReady version x '
          'licence-URL override) is requested and the response diffed box by box against the stored file: only '
          'appended pssh boxes for the systems whose locations include moov (right SystemID, PRO/WRMHEADER naming '
-         'the track KID in GUID order, ClearKey v1 KID list) and mehd removal in live mode are permitted.',
+         'the track KID in GUID order, ClearKey v1 KID list) and mehd removal in live mode are permitted.'
+         ' Histories: every ordered pair (a, b) of a request alphabet is run in a process forked for that pair from one that has served nothing; the responses to b are compared with b run alone (mc/history.py).',
     note='SystemIDs from the DASH-IF registry; KID from the stored tenc read by mc/bmff.py.')
 CHECKS['C13'] = dict(
     engine='crawler',
@@ -122,7 +124,8 @@ CHECKS['C05'] = dict(
          'delays, and 13 hostile strings injected into each of 15 positions (stored titles and licence URLs, '
          'free-text query options, unknown query names, Host) x template x mode. Every 200 body must parse with a '
          'non-recovering parser, keep the element/attribute skeleton of the benign request, and satisfy the '
-         'structural rules of mc/mpdrules.py written from ISO/IEC 23009-1.',
+         'structural rules of mc/mpdrules.py written from ISO/IEC 23009-1.'
+         ' Histories: every ordered pair (a, b) of a request alphabet is run in a process forked for that pair from one that has served nothing; the responses to b are compared with b run alone (mc/history.py).',
     note='Rule set is the subset the property names (required attributes, lexical types, non-negativity, id '
          'uniqueness, non-empty AdaptationSets, template identifiers); it is not a full schema validation.')
 CHECKS['C08'] = dict(
